@@ -140,10 +140,40 @@ def cases(chk):
     return out
 
 
+def symbolic_name_cases():
+    """declarations whose NAME is a symbolic identifier: the underscore rules are decided for every spelling"""
+    out = []
+    for vis in ('public', 'private', 'internal', None):
+        def build_var(b, vis=vis):
+            nm, cons = fam.symbolic_ident('var')
+            attrs = [b.vattr('visibility', vis)] if vis else []
+            su = file_of(b, [('contract', 'Contract', [b.state_var(b.ty('Uint', 256), nm, attrs)])])
+            return su, cons
+        out.append(('var <name> %s' % vis, build_var))
+    for vis in ('public', 'external', 'private', 'internal'):
+        def build_fn(b, vis=vis):
+            nm, cons = fam.symbolic_ident('fn')
+            fn = b.function('Function', nm, [], [b.fattr('visibility', vis)], b.block([]))
+            return file_of(b, [('contract', 'Contract', [fn])]), cons
+        out.append(('function <name> %s' % vis, build_fn))
+    return out
+
+
 def job(chk, item):
     e = chk.engine()
     results = []
     all_cases = cases(chk)
+    if item and item[0] == 'symbolic':
+        for label, build in symbolic_name_cases():
+            for d in DETECTORS:
+                COUNTER[0] = 0
+                b = sol.TreeBuilder()
+                su, cons = build(b)
+                results.append(fam.run_case(chk, e, d, su, label, {v.decl().name() for v in b.loc_vars}, base=cons))
+        fam.flush_validation(chk, results)
+        chk.extra_lists.setdefault('per_job', []).append({'cases': len(results), 'paths': sum(r.paths for r in results),
+                                                          'paths_with_reports': sum(r.flagged for r in results), 'paths_without': sum(r.silent for r in results)})
+        return
     for idx in item:
         label, build = all_cases[idx]
         for d in DETECTORS:
@@ -171,7 +201,7 @@ def body(chk):
                             'member sequences up to length 3 (+ selected longer) over function/modifier/constructor/receive/variable in 1-3 contracts and with free functions',
                   'outside': 'more than one function attribute of a kind; override/virtual attributes (not inspected by the detectors)'}
     chk.assumptions = ['as C05; state-variable names unique within the file (the property\'s precondition)']
-    chunks = [idx[k:k + 30] for k in range(0, len(idx), 30)]
+    chunks = [idx[k:k + 30] for k in range(0, len(idx), 30)] + [['symbolic']]
     chk.parallel(job, chunks)
     rep = sum(j['paths_with_reports'] for j in chk.extra_lists.get('per_job', []))
     sil = sum(j['paths_without'] for j in chk.extra_lists.get('per_job', []))
